@@ -174,6 +174,8 @@ func newServer(cfg *ScenCfg, e *env) *server.Server {
 
 func policyOf(cfg *ScenCfg) (simrt.Policy, int) {
 	switch cfg.Policy {
+	case "corelease":
+		return simrt.Coarse, -1
 	case "fifo":
 		return simrt.FIFO, 0
 	case "fine":
